@@ -97,6 +97,16 @@ type c15Case struct {
 	logging bool
 	order   []string
 	o       *Out
+	dead    bool // an operation of the implementation panicked; the rest of the history is skipped
+}
+
+// recoverOp is deferred by every operation: a panic of the library is an observation (99) and a verdict.
+func (cs *c15Case) recoverOp(name string) {
+	if r := recover(); r != nil {
+		cs.dead = true
+		cs.fail("panic in %s: %v", name, r)
+		cs.obs = append(cs.obs, 99)
+	}
 }
 
 func (cs *c15Case) fail(format string, args ...interface{}) {
@@ -233,6 +243,10 @@ func (cs *c15Case) finishOp(j int) {
 }
 
 func (cs *c15Case) opAdd(j int, hp string, d1, d2 int64) {
+	if cs.dead {
+		return
+	}
+	defer cs.recoverOp("Add")
 	l := cs.lists[j]
 	cs.in = append(cs.in, 0, int64(j))
 	cs.in = putBytes(cs.in, []byte(hp))
@@ -250,6 +264,10 @@ func (cs *c15Case) opAdd(j int, hp string, d1, d2 int64) {
 }
 
 func (cs *c15Case) opRemove(j int, hp string) {
+	if cs.dead {
+		return
+	}
+	defer cs.recoverOp("Remove")
 	l := cs.lists[j]
 	cs.in = append(cs.in, 1, int64(j))
 	cs.in = putBytes(cs.in, []byte(hp))
@@ -278,6 +296,10 @@ func (cs *c15Case) opRemove(j int, hp string) {
 
 // opGet runs Get (getNew=false) or GetNew; returns the selected host:port ("" on error).
 func (cs *c15Case) opGet(j int, getNew bool, prev []string, d int64) string {
+	if cs.dead {
+		return ""
+	}
+	defer cs.recoverOp("Get/GetNew")
 	l := cs.lists[j]
 	kind := int64(2)
 	if getNew {
@@ -379,6 +401,10 @@ func (cs *c15Case) opGet(j int, getNew bool, prev []string, d int64) string {
 }
 
 func (cs *c15Case) opSetLoad(hp string, a c15Load) {
+	if cs.dead {
+		return
+	}
+	defer cs.recoverOp("load change / Channel.updatePeer")
 	cs.in = append(cs.in, 4)
 	cs.in = putBytes(cs.in, []byte(hp))
 	cs.in = append(cs.in, int64(a.in), int64(a.out), int64(a.pend), int64(a.custom))
@@ -398,6 +424,10 @@ func (cs *c15Case) opSetLoad(hp string, a c15Load) {
 }
 
 func (cs *c15Case) opSetStrategy(j, strat int) {
+	if cs.dead {
+		return
+	}
+	defer cs.recoverOp("SetStrategy")
 	l := cs.lists[j]
 	l.src.q, l.src.used = nil, 0
 	cs.order = nil
@@ -417,6 +447,7 @@ func (cs *c15Case) opSetStrategy(j, strat int) {
 }
 
 func (cs *c15Case) done(sub, id string, nontrivial bool) {
+	defer func() { recover() }() // Close of a channel whose list is corrupt must not end the engine
 	cs.in[1] = int64(cs.nops)
 	cs.o.Case(sub, id, cs.in, cs.obs, nontrivial, cs.verdict)
 	cs.ch.Close()
